@@ -546,6 +546,28 @@ def c19_ref_scenarios(rng, tag, n):
     return out
 
 
+def parallel_c09(rng, tag, n):
+    """logins of the SAME user with different passwords on two or three connections, fed at the same moment; the user's
+    credential check takes tens of milliseconds (password prefix slow-: bcrypt cost 10), so the checks really overlap"""
+    out = []
+    for i in range(n):
+        cfg = base_cfg(rng, tag)
+        good = "slow-" + tag + "-%d" % (i % 3)
+        for u in cfg["users"]:
+            if u["name"] == "alice" and "s1" in u["scopes"]:
+                u["auth"] = auth(good)
+        conns, steps = [], []
+        pws = [good, "bad-" + tag] + ([good] if rng.random() < 0.3 else [])
+        rng.shuffle(pws)
+        for c, pw in enumerate(pws, start=1):
+            conns.append({"c": c, "addr": "10.1.0.%d" % (4 + c)})
+            st = session_steps(c, 0, pap_login("alice", pw))
+            st[0]["par"] = True
+            steps += st
+        out.append({"id": "c09par-%d" % i, "cfg": cfg, "conns": conns, "steps": steps, "iso": True, "log": False, "overlap": True})
+    return out
+
+
 def exhaustive_c09(rng, tag, limit):
     """all interleavings of small script pairs/triples on one connection"""
     cfg = base_cfg(rng, tag)
@@ -614,6 +636,7 @@ def collect(ctx, prop):
     if prop == "C09":
         scen += exhaustive_c09(rng, tag, 300 if quick else 6000)
         scen += overlap_c09(rng, tag, 150 if quick else 3000)
+        scen += parallel_c09(rng, tag, 12 if quick else 150)
     if prop in ("C07", "C09", "C10", "C06"):
         scen += reuse_ref_scenarios(rng, tag, 40 if quick else 600)
         if prop == "C09":
